@@ -223,10 +223,9 @@ Proof.
 Qed.
 
 Section KeysProofs.
-Variable ec_point_ok : N -> bytes -> bool.
-Variable ec_pub_of_priv : N -> bytes -> option bytes.
-Notation parse_key := (parse_key ec_point_ok ec_pub_of_priv).
-Notation ecdsa_pub_of := (ecdsa_pub_of ec_point_ok).
+Variable L : stdlib.
+Notation parse_key := (parse_key L).
+Notation ecdsa_pub_of := (ecdsa_pub_of L).
 
 Lemma coord_size_pos curve c : coord_size curve = Some c -> True.
 Proof. auto. Qed.
@@ -268,42 +267,346 @@ Ltac np :=
   | |- (if ?c then _ else _) <> Panic => destruct c
   end.
 
+(* ---- the parsers written as functions of their own ---- *)
+Lemma ed25519_from_seed_ok seed : blen seed = ed25519_seed_size ->
+  ed25519_from_seed L seed = Ok (ed25519_pub L seed).
+Proof. intros H. unfold ed25519_from_seed. rewrite H, N.eqb_refl. reflexivity. Qed.
+
+Lemma parse_ed25519_pub_np kd prefix idreq : parse_ed25519_pub kd prefix idreq <> Panic.
+Proof. unfold parse_ed25519_pub. np. Qed.
+
+Lemma parse_ed25519_priv_np kd prefix idreq : parse_ed25519_priv L kd prefix idreq <> Panic.
+Proof.
+  unfold parse_ed25519_priv.
+  destruct (negb (kd_mat kd =? km_private)); [discriminate|].
+  destruct (negb (wire_ok _ _)); [discriminate|].
+  destruct (negb (_ && _)); [discriminate|].
+  match goal with |- context [ed25519_from_seed L ?s] => destruct (blen s =? ed25519_seed_size) eqn:E end;
+    cbn [negb]; [|discriminate].
+  apply N.eqb_eq in E. rewrite (ed25519_from_seed_ok _ E). cbn [bind]. np.
+Qed.
+
+Lemma parse_rsa_priv_np pss kd prefix idreq : parse_rsa_priv L pss kd prefix idreq <> Panic.
+Proof.
+  unfold parse_rsa_priv. np.
+  destruct (rsa_crt L _ _ _ _ _) as [[[dp dq] qinv]|]; np.
+Qed.
+
+(* ECIES *)
+Lemma ecies_pk_np curve (x y : bytes) :
+  (if curve =? c_x25519 then Ok x
+   else match coord_size curve with
+        | None => Err
+        | Some c => bind (fixed_size x c) (fun x' => bind (fixed_size y c) (fun y' => Ok (4 :: x' ++ y')))
+        end) <> Panic.
+Proof.
+  destruct (curve =? c_x25519); [discriminate|]. destruct (coord_size curve) as [c|]; [|discriminate].
+  apply bind_np; [apply fixed_size_np|]. intros x' _. apply bind_np; [apply fixed_size_np|]. intros y' _. discriminate.
+Qed.
+
+Lemma ecies_pub_of_np fs prefix idreq : ecies_pub_of L fs prefix idreq <> Panic.
+Proof.
+  unfold ecies_pub_of.
+  destruct (negb (get_u32 1 fs =? 0)); [discriminate|].
+  destruct (negb (_ && _)); [discriminate|].
+  destruct (ecies_dem _) as [dem|]; [|discriminate].
+  destruct (_ && negb _); [discriminate|].
+  apply bind_np; [apply ecies_pk_np|]. intros pt _. np.
+Qed.
+
+(* the public key bytes of an accepted ECIES key on a NIST curve are 04 || x || y *)
+Lemma ecies_pub_of_ok fs prefix idreq curve dem pt :
+  ecies_pub_of L fs prefix idreq = Ok (curve, dem, pt) ->
+  forall c, coord_size curve = Some c -> length pt = (1 + 2 * c)%nat.
+Proof.
+  unfold ecies_pub_of.
+  destruct (negb (get_u32 1 fs =? 0)); [discriminate|].
+  destruct (negb (_ && _)); [discriminate|].
+  destruct (ecies_dem _) as [dem'|]; [|discriminate].
+  destruct (_ && negb _); [discriminate|].
+  intros H. apply bind_ok in H. destruct H as [pt' [Hpk H]].
+  destruct (negb (negb _ || _)); [discriminate|].
+  destruct (ec_point_ok L _ pt'); [|discriminate]. inversion H as [[H1 H2 H3]]. clear H.
+  subst pt'. intros c Hc. rewrite H1 in Hpk, Hc.
+  destruct (curve =? c_x25519) eqn:EX.
+  { apply N.eqb_eq in EX. rewrite EX in Hc. vm_compute in Hc. discriminate. }
+  rewrite Hc in Hpk. apply bind_ok in Hpk. destruct Hpk as [x [Hx Hpk]]. apply fixed_size_length in Hx.
+  apply bind_ok in Hpk. destruct Hpk as [y [Hy Hpk]]. apply fixed_size_length in Hy.
+  inversion Hpk. cbn [length]. rewrite app_length. lia.
+Qed.
+
+Lemma parse_ecies_pub_np kd prefix idreq : parse_ecies_pub L kd prefix idreq <> Panic.
+Proof.
+  unfold parse_ecies_pub. np. apply bind_np; [apply ecies_pub_of_np|]. intros [[c d] pt] _. discriminate.
+Qed.
+
+Lemma ecies_priv_np curve (b : bytes) :
+  (if curve =? c_x25519 then Ok b
+   else match coord_size curve with None => Err | Some c => fixed_size b c end) <> Panic.
+Proof.
+  destruct (curve =? c_x25519); [discriminate|]. destruct (coord_size curve); [apply fixed_size_np|discriminate].
+Qed.
+
+Lemma parse_ecies_priv_np kd prefix idreq : parse_ecies_priv L kd prefix idreq <> Panic.
+Proof.
+  unfold parse_ecies_priv. np. apply bind_np; [apply ecies_pub_of_np|]. intros [[c d] pt] _.
+  apply bind_np; [apply ecies_priv_np|]. intros sk _.
+  destruct (ec_pub_of_priv L c sk); np.
+Qed.
+
+(* HPKE *)
+Lemma hpke_pub_of_np fs prefix idreq : hpke_pub_of L fs prefix idreq <> Panic.
+Proof. unfold hpke_pub_of. np. Qed.
+
+Lemma parse_hpke_pub_np kd prefix idreq : parse_hpke_pub L kd prefix idreq <> Panic.
+Proof.
+  unfold parse_hpke_pub. np. apply bind_np; [apply hpke_pub_of_np|]. intros [kem pk] _. discriminate.
+Qed.
+
+Lemma parse_hpke_priv_np kd prefix idreq : parse_hpke_priv L kd prefix idreq <> Panic.
+Proof.
+  unfold parse_hpke_priv. np. apply bind_np; [apply hpke_pub_of_np|]. intros [kem pk] _.
+  match goal with |- match ?o with Some _ => _ | None => _ end <> Panic => destruct o end; np.
+Qed.
+
+(* streaming AEAD, JWT, ML-DSA, SLH-DSA *)
+Lemma parse_stream_gcm_hkdf_np kd prefix idreq : parse_stream_gcm_hkdf kd prefix idreq <> Panic.
+Proof. unfold parse_stream_gcm_hkdf. np. Qed.
+Lemma parse_stream_ctr_hmac_np kd prefix idreq : parse_stream_ctr_hmac kd prefix idreq <> Panic.
+Proof. unfold parse_stream_ctr_hmac. np. Qed.
+Lemma parse_jwt_hmac_np kd prefix idreq : parse_jwt_hmac kd prefix idreq <> Panic.
+Proof. unfold parse_jwt_hmac. np. Qed.
+Lemma parse_jwt_rsa_pub_np pss kd prefix idreq : parse_jwt_rsa_pub pss kd prefix idreq <> Panic.
+Proof. unfold parse_jwt_rsa_pub. np. Qed.
+Lemma parse_jwt_mldsa_pub_np kd prefix idreq : parse_jwt_mldsa_pub kd prefix idreq <> Panic.
+Proof. unfold parse_jwt_mldsa_pub. np. Qed.
+Lemma parse_jwt_rsa_priv_np pss kd prefix idreq : parse_jwt_rsa_priv L pss kd prefix idreq <> Panic.
+Proof. unfold parse_jwt_rsa_priv. np. destruct (rsa_crt L _ _ _ _ _) as [[[dp dq] qinv]|]; np. Qed.
+Lemma parse_mldsa_pub_np kd prefix idreq : parse_mldsa_pub kd prefix idreq <> Panic.
+Proof. unfold parse_mldsa_pub. np. Qed.
+Lemma parse_slhdsa_pub_np kd prefix idreq : parse_slhdsa_pub kd prefix idreq <> Panic.
+Proof. unfold parse_slhdsa_pub. np. Qed.
+
+Lemma jwt_ecdsa_pub_of_np fs prefix idreq : jwt_ecdsa_pub_of L fs prefix idreq <> Panic.
+Proof.
+  unfold jwt_ecdsa_pub_of. destruct (negb _); [discriminate|].
+  destruct (coord_size _) as [c|]; [|discriminate].
+  apply bind_np; [apply fixed_size_np|]. intros x _. apply bind_np; [apply fixed_size_np|]. intros y _. np.
+Qed.
+
+Lemma jwt_ecdsa_pub_of_ok fs prefix idreq alg pt :
+  jwt_ecdsa_pub_of L fs prefix idreq = Ok (alg, pt) -> pt <> [].
+Proof.
+  unfold jwt_ecdsa_pub_of. destruct (negb _); [discriminate|].
+  destruct (coord_size _) as [c|]; [|discriminate].
+  intros H. apply bind_ok in H. destruct H as [x [_ H]]. apply bind_ok in H. destruct H as [y [_ H]].
+  destruct (negb _); [discriminate|]. destruct (ec_point_ok L _ _); [|discriminate].
+  inversion H. discriminate.
+Qed.
+
+Lemma parse_jwt_ecdsa_pub_np kd prefix idreq : parse_jwt_ecdsa_pub L kd prefix idreq <> Panic.
+Proof.
+  unfold parse_jwt_ecdsa_pub. np. apply bind_np; [apply jwt_ecdsa_pub_of_np|]. intros [a pt] _. discriminate.
+Qed.
+
+Lemma parse_jwt_ecdsa_priv_np kd prefix idreq : parse_jwt_ecdsa_priv L kd prefix idreq <> Panic.
+Proof.
+  unfold parse_jwt_ecdsa_priv. np. apply bind_np; [apply jwt_ecdsa_pub_of_np|]. intros [a pt] _.
+  destruct (coord_size _) as [c|]; [|discriminate].
+  apply bind_np; [apply fixed_size_np|]. intros d _. destruct (ec_pub_of_priv L _ d); np.
+Qed.
+
+(* the two slices of DecodeSecretKey are within a private key of 4n bytes *)
+Lemma parse_slhdsa_priv_np kd prefix idreq : parse_slhdsa_priv kd prefix idreq <> Panic.
+Proof.
+  unfold parse_slhdsa_priv. np.
+  destruct (slhdsa_pub_of _ _ _) as [ks|] eqn:E; [|discriminate].
+  match goal with |- context [negb (blen ?sk =? ks)] => destruct (blen sk =? ks) eqn:El; cbn [negb]; [|discriminate];
+    set (skb := sk) in * end.
+  apply N.eqb_eq in El. unfold blen in El.
+  assert (Hks : ks = slhdsa_key_a \/ ks = slhdsa_key_b \/ ks = slhdsa_key_c).
+  { unfold slhdsa_pub_of in E. destruct (_ && _) eqn:C in E; [|discriminate]. inversion E; subst.
+    repeat rewrite andb_true_iff in C. destruct C as [[[_ C] _] _]. lia. }
+  assert (Hn : (4 * N.to_nat (ks / 4) = length skb)%nat).
+  { destruct Hks as [->|[->| ->]]; vm_compute (N.to_nat (_ / 4)); unfold slhdsa_key_a, slhdsa_key_b, slhdsa_key_c in El; lia. }
+  destruct (slice_ok (2 * N.to_nat (ks / 4)) (3 * N.to_nat (ks / 4)) skb) as [r1 [-> _]]; try lia. cbn [bind].
+  destruct (slice_ok (3 * N.to_nat (ks / 4)) (4 * N.to_nat (ks / 4)) skb) as [r2 [-> _]]; try lia. cbn [bind]. np.
+Qed.
+
+Create HintDb npdb.
+Hint Resolve parse_ed25519_pub_np parse_ed25519_priv_np parse_rsa_priv_np
+  parse_ecies_pub_np parse_ecies_priv_np parse_hpke_pub_np parse_hpke_priv_np
+  parse_stream_gcm_hkdf_np parse_stream_ctr_hmac_np parse_jwt_hmac_np parse_jwt_rsa_pub_np
+  parse_mldsa_pub_np parse_slhdsa_pub_np parse_jwt_ecdsa_pub_np parse_jwt_ecdsa_priv_np parse_slhdsa_priv_np
+  parse_jwt_mldsa_pub_np parse_jwt_rsa_priv_np : npdb.
+
+Lemma parse_key_more_np kd prefix idreq : parse_key_more L kd prefix idreq <> Panic.
+Proof. unfold parse_key_more. np; auto with npdb. Qed.
+Hint Resolve parse_key_more_np : npdb.
+
 Theorem parse_key_np kd prefix idreq : parse_key kd prefix idreq <> Panic.
 Proof.
-  unfold Untrusted.parse_key. np.
+  unfold Untrusted.parse_key. np; try solve [auto with npdb].
   - apply bind_np; [apply ecdsa_pub_of_np|]. intros [[[curve hash] enc] pt] _. discriminate.
   - apply bind_np; [apply ecdsa_pub_of_np|]. intros [[[curve hash] enc] pt] _.
     destruct (coord_size curve); [|discriminate].
     apply bind_np; [apply fixed_size_np|]. intros d _.
-    destruct (ec_pub_of_priv curve d); [|discriminate]. destruct (beq _ _); discriminate.
+    destruct (ec_pub_of_priv L curve d); [|discriminate]. destruct (beq _ _); discriminate.
 Qed.
 
 (* the keys the parser hands out are such that their constructors do not panic *)
 Definition point_shaped (d : pkd) : Prop :=
   match d with
-  | PEcdsaPub _ _ _ pt | PEcdsaPriv _ _ _ pt _ => pt <> []
+  | PEcdsaPub _ _ _ pt | PEcdsaPriv _ _ _ pt _ | PJwtEcdsa _ _ pt => pt <> []
+  | PEd25519Priv seed => blen seed = ed25519_seed_size
+  | PEcies _ curve _ pt => forall c, coord_size curve = Some c -> length pt = (1 + 2 * c)%nat
   | _ => True
   end.
 
-Lemma parse_key_point kd prefix idreq d : parse_key kd prefix idreq = Ok d -> point_shaped d.
-Proof.
-  unfold Untrusted.parse_key.
+Ltac shape :=
   repeat match goal with
   | |- (if ?c then _ else _) = Ok _ -> _ => destruct c
   | |- okb _ _ = Ok _ -> _ => let H := fresh in intros H; apply okb_ok in H; destruct H as [_ ->]; exact I
   | |- Err = Ok _ -> _ => discriminate
   end.
+
+Lemma parse_ed25519_pub_point kd prefix idreq d : parse_ed25519_pub kd prefix idreq = Ok d -> point_shaped d.
+Proof. unfold parse_ed25519_pub. shape. Qed.
+
+Lemma parse_ed25519_priv_point kd prefix idreq d : parse_ed25519_priv L kd prefix idreq = Ok d -> point_shaped d.
+Proof.
+  unfold parse_ed25519_priv.
+  destruct (negb (kd_mat kd =? km_private)); [discriminate|].
+  destruct (negb (wire_ok _ _)); [discriminate|].
+  destruct (negb (_ && _)); [discriminate|].
+  match goal with |- context [ed25519_from_seed L ?s] => destruct (blen s =? ed25519_seed_size) eqn:E end;
+    cbn [negb]; [|discriminate].
+  apply N.eqb_eq in E. rewrite (ed25519_from_seed_ok _ E). cbn [bind].
+  destruct (beq _ _); [|discriminate]. intros H. inversion H. exact E.
+Qed.
+Lemma parse_rsa_priv_point pss kd prefix idreq d : parse_rsa_priv L pss kd prefix idreq = Ok d -> point_shaped d.
+Proof.
+  unfold parse_rsa_priv. shape.
+  destruct (rsa_crt L _ _ _ _ _) as [[[dp dq] qinv]|]; shape.
+Qed.
+Lemma parse_ecies_pub_point kd prefix idreq d : parse_ecies_pub L kd prefix idreq = Ok d -> point_shaped d.
+Proof.
+  unfold parse_ecies_pub. shape. intros H. apply bind_ok in H. destruct H as [[[c dem] pt] [H1 H2]].
+  inversion H2; subst. cbn [point_shaped]. eapply ecies_pub_of_ok. exact H1.
+Qed.
+
+Lemma parse_ecies_priv_point kd prefix idreq d : parse_ecies_priv L kd prefix idreq = Ok d -> point_shaped d.
+Proof.
+  unfold parse_ecies_priv. shape. intros H. apply bind_ok in H. destruct H as [[[c dem] pt] [H1 H2]].
+  apply bind_ok in H2. destruct H2 as [sk [_ H2]].
+  destruct (ec_pub_of_priv L c sk); [|discriminate].
+  destruct (negb _); [discriminate|]. destruct (beq _ _); [|discriminate].
+  inversion H2; subst. cbn [point_shaped]. eapply ecies_pub_of_ok. exact H1.
+Qed.
+
+Lemma parse_hpke_pub_point kd prefix idreq d : parse_hpke_pub L kd prefix idreq = Ok d -> point_shaped d.
+Proof.
+  unfold parse_hpke_pub. shape. intros H. apply bind_ok in H. destruct H as [[kem pk] [_ H2]].
+  inversion H2. exact I.
+Qed.
+
+Lemma parse_hpke_priv_point kd prefix idreq d : parse_hpke_priv L kd prefix idreq = Ok d -> point_shaped d.
+Proof.
+  unfold parse_hpke_priv. shape. intros H. apply bind_ok in H. destruct H as [[kem pk] [_ H2]].
+  match type of H2 with match ?o with Some _ => _ | None => _ end = _ => destruct o end; [|discriminate].
+  destruct (beq _ _); [|discriminate]. inversion H2. exact I.
+Qed.
+Lemma parse_stream_gcm_hkdf_point kd prefix idreq d : parse_stream_gcm_hkdf kd prefix idreq = Ok d -> point_shaped d.
+Proof. unfold parse_stream_gcm_hkdf. shape. Qed.
+Lemma parse_stream_ctr_hmac_point kd prefix idreq d : parse_stream_ctr_hmac kd prefix idreq = Ok d -> point_shaped d.
+Proof. unfold parse_stream_ctr_hmac. shape. Qed.
+Lemma parse_jwt_hmac_point kd prefix idreq d : parse_jwt_hmac kd prefix idreq = Ok d -> point_shaped d.
+Proof. unfold parse_jwt_hmac. shape. Qed.
+Lemma parse_jwt_rsa_pub_point pss kd prefix idreq d : parse_jwt_rsa_pub pss kd prefix idreq = Ok d -> point_shaped d.
+Proof. unfold parse_jwt_rsa_pub. shape. Qed.
+Lemma parse_jwt_mldsa_pub_point kd prefix idreq d : parse_jwt_mldsa_pub kd prefix idreq = Ok d -> point_shaped d.
+Proof. unfold parse_jwt_mldsa_pub. shape. Qed.
+Lemma parse_jwt_rsa_priv_point pss kd prefix idreq d : parse_jwt_rsa_priv L pss kd prefix idreq = Ok d -> point_shaped d.
+Proof. unfold parse_jwt_rsa_priv. shape. destruct (rsa_crt L _ _ _ _ _) as [[[dp dq] qinv]|]; shape. Qed.
+Lemma parse_mldsa_pub_point kd prefix idreq d : parse_mldsa_pub kd prefix idreq = Ok d -> point_shaped d.
+Proof. unfold parse_mldsa_pub. shape. Qed.
+Lemma parse_slhdsa_pub_point kd prefix idreq d : parse_slhdsa_pub kd prefix idreq = Ok d -> point_shaped d.
+Proof. unfold parse_slhdsa_pub. shape. intros H. inversion H. exact I. Qed.
+Lemma parse_slhdsa_priv_point kd prefix idreq d : parse_slhdsa_priv kd prefix idreq = Ok d -> point_shaped d.
+Proof.
+  unfold parse_slhdsa_priv. shape. destruct (slhdsa_pub_of _ _ _); [|discriminate]. shape.
+  intros H. apply bind_ok in H. destruct H as [a [_ H]]. apply bind_ok in H. destruct H as [b [_ H]].
+  destruct (beq _ _); [|discriminate]. inversion H. exact I.
+Qed.
+Lemma parse_jwt_ecdsa_pub_point kd prefix idreq d : parse_jwt_ecdsa_pub L kd prefix idreq = Ok d -> point_shaped d.
+Proof.
+  unfold parse_jwt_ecdsa_pub. shape. intros H. apply bind_ok in H. destruct H as [[a pt] [H1 H2]].
+  inversion H2; subst. cbn [point_shaped]. eapply jwt_ecdsa_pub_of_ok. exact H1.
+Qed.
+Lemma parse_jwt_ecdsa_priv_point kd prefix idreq d : parse_jwt_ecdsa_priv L kd prefix idreq = Ok d -> point_shaped d.
+Proof.
+  unfold parse_jwt_ecdsa_priv. shape. intros H. apply bind_ok in H. destruct H as [[a pt] [H1 H2]].
+  destruct (coord_size _) as [c|]; [|discriminate]. apply bind_ok in H2. destruct H2 as [dd [_ H2]].
+  destruct (ec_pub_of_priv L _ dd); [|discriminate]. destruct (beq _ _); [|discriminate].
+  inversion H2; subst. cbn [point_shaped]. eapply jwt_ecdsa_pub_of_ok. exact H1.
+Qed.
+Hint Resolve parse_ed25519_pub_point parse_ed25519_priv_point parse_rsa_priv_point
+  parse_ecies_pub_point parse_ecies_priv_point parse_hpke_pub_point parse_hpke_priv_point
+  parse_stream_gcm_hkdf_point parse_stream_ctr_hmac_point parse_jwt_hmac_point parse_jwt_rsa_pub_point
+  parse_mldsa_pub_point parse_slhdsa_pub_point parse_slhdsa_priv_point
+  parse_jwt_ecdsa_pub_point parse_jwt_ecdsa_priv_point parse_jwt_mldsa_pub_point parse_jwt_rsa_priv_point : npdb.
+
+Lemma parse_key_more_point kd prefix idreq d : parse_key_more L kd prefix idreq = Ok d -> point_shaped d.
+Proof. unfold parse_key_more. shape; eauto with npdb. Qed.
+Hint Resolve parse_key_more_point : npdb.
+
+(* the second-round parsers and the fallback hand out none of the 16
+   first-round kinds of key (used by proofs/SecretsProofs.v) *)
+Definition more_kind (d : pkd) : bool :=
+  match d with
+  | PHmac _ _ _ | PAesCmac _ _ | PAesGcm _ | PAesGcmSiv _ | PAesCtrHmac _ _ _ _ _ | PAesSiv _
+  | PHkdfPrf _ _ | PHmacPrf _ _ | PAesCmacPrf _ | PEcdsaPub _ _ _ _ | PEcdsaPriv _ _ _ _ _
+  | PRsaPkcs1Pub _ _ _ | PRsaPssPub _ _ _ _ | PChaCha _ | PXChaCha _ | PXAesGcm _ _ => false
+  | _ => true
+  end.
+
+Ltac kind :=
+  repeat match goal with
+  | |- (if ?c then _ else _) = Ok _ -> _ => destruct c
+  | |- okb _ _ = Ok _ -> _ => let H := fresh in intros H; apply okb_ok in H; destruct H as [_ ->]; reflexivity
+  | |- bind _ _ = Ok _ -> _ => let H := fresh in let a := fresh in intros H; apply bind_ok in H; destruct H as [a [_ H]]; revert H
+  | |- Ok _ = Ok _ -> _ => let H := fresh in intros H; inversion H; reflexivity
+  | |- Err = Ok _ -> _ => discriminate
+  end.
+
+Lemma parse_key_more_kind kd prefix idreq d : parse_key_more L kd prefix idreq = Ok d -> more_kind d = true.
+Proof.
+  unfold parse_key_more, parse_ed25519_pub, parse_ed25519_priv, parse_rsa_priv,
+    parse_ecies_pub, parse_ecies_priv, parse_hpke_pub, parse_hpke_priv,
+    parse_stream_gcm_hkdf, parse_stream_ctr_hmac, parse_jwt_hmac, parse_jwt_ecdsa_pub, parse_jwt_ecdsa_priv,
+    parse_jwt_rsa_pub, parse_mldsa_pub, parse_slhdsa_pub, parse_slhdsa_priv,
+    parse_jwt_rsa_priv, parse_jwt_mldsa_pub. kind.
+  all: try (destruct (rsa_crt L _ _ _ _ _) as [[[dp dq] qinv]|]; kind).
+  all: repeat (kind; match goal with
+       | |- (let (_, _) := ?p in _) = Ok _ -> _ => destruct p
+       | |- match ?o with Some _ => _ | None => _ end = Ok _ -> _ => destruct o
+       end); kind.
+Qed.
+
+Lemma parse_key_point kd prefix idreq d : parse_key kd prefix idreq = Ok d -> point_shaped d.
+Proof.
+  unfold Untrusted.parse_key. shape; try solve [eauto with npdb].
   - intros H. apply bind_ok in H. destruct H as [[[[curve hash] enc] pt] [H1 H2]].
     apply ecdsa_pub_of_ok in H1. destruct H1 as [_ [_ [_ [t ->]]]]. inversion H2; subst. simpl. discriminate.
   - intros H. apply bind_ok in H. destruct H as [[[[curve hash] enc] pt] [H1 H2]].
     apply ecdsa_pub_of_ok in H1. destruct H1 as [_ [_ [_ [t ->]]]].
     destruct (coord_size curve); [|discriminate].
     apply bind_ok in H2. destruct H2 as [dd [_ H2]].
-    destruct (ec_pub_of_priv curve dd); [|discriminate]. destruct (beq _ _); [|discriminate].
+    destruct (ec_pub_of_priv L curve dd); [|discriminate]. destruct (beq _ _); [|discriminate].
     inversion H2; subst. simpl. discriminate.
 Qed.
 
-Lemma prim_ok_np d : point_shaped d -> prim_ok d <> Panic.
+Lemma prim_ok_np d : point_shaped d -> prim_ok L d <> Panic.
 Proof.
   assert (P : forall pt : bytes, pt <> [] ->
     bind (slice 1 (length pt) pt) (fun xy =>
@@ -315,16 +618,25 @@ Proof.
     assert (Hd : (Nat.div (length xy) 2 <= length xy)%nat) by (apply Nat.div_le_upper_bound; lia).
     destruct (slice_ok 0 (Nat.div (length xy) 2) xy) as [r1 [-> _]]; try lia. cbn [bind].
     destruct (slice_ok (Nat.div (length xy) 2) (length xy) xy) as [r2 [-> _]]; try lia. cbn [bind]. discriminate. }
-  destruct d; simpl; intros H; try discriminate; apply P; exact H.
+  destruct d; simpl; intros H; try discriminate; try (apply P; exact H).
+  - rewrite (ed25519_from_seed_ok _ H). discriminate.
+  - (* ECIES: the slices of 04 || x || y *)
+    destruct private.
+    + destruct (coord_size curve); discriminate.
+    + destruct (coord_size curve) as [c|] eqn:Hc; [|discriminate]. specialize (H c eq_refl).
+      destruct (slice_ok 1 (length point) point) as [xy [E Hl]]; try lia.
+      rewrite E. cbn [bind]. destruct (dem =? dem_xchacha); [discriminate|].
+      destruct (slice_ok 0 c xy) as [r1 [-> _]]; try lia. cbn [bind].
+      destruct (slice_ok c (length xy) xy) as [r2 [-> _]]; try lia. cbn [bind]. discriminate.
 Qed.
 
 Theorem parse_then_prim_np kd prefix idreq d :
-  parse_key kd prefix idreq = Ok d -> prim_ok d <> Panic.
+  parse_key kd prefix idreq = Ok d -> prim_ok L d <> Panic.
 Proof. intros H. apply prim_ok_np. eapply parse_key_point. exact H. Qed.
 
-Notation to_entry := (to_entry ec_point_ok ec_pub_of_priv).
-Notation to_entries := (to_entries ec_point_ok ec_pub_of_priv).
-Notation handle_from_proto := (handle_from_proto ec_point_ok ec_pub_of_priv).
+Notation to_entry := (to_entry L).
+Notation to_entries := (to_entries L).
+Notation handle_from_proto := (handle_from_proto L).
 
 Lemma to_entry_np primary k : to_entry primary k <> Panic.
 Proof.
@@ -348,28 +660,28 @@ Proof.
   destruct ks; [|discriminate]. apply bind_np; [apply to_entries_np|]. intros es _. apply new_from_entries_np.
 Qed.
 
-Theorem read_np b : read ec_point_ok ec_pub_of_priv b <> Panic.
+Theorem read_np b : read L b <> Panic.
 Proof.
   unfold read. destruct (decode_keyset b); [|discriminate].
   destruct (ks_keys k); [discriminate|]. apply handle_from_proto_np.
 Qed.
 
-Theorem read_proto_np ks : read_proto ec_point_ok ec_pub_of_priv ks <> Panic.
+Theorem read_proto_np ks : read_proto L ks <> Panic.
 Proof.
   unfold read_proto. destruct ks as [k|]; [|discriminate].
   destruct (ks_keys k); [discriminate|]. apply handle_from_proto_np.
 Qed.
 
-Theorem handle_no_secrets_np ks : handle_no_secrets ec_point_ok ec_pub_of_priv ks <> Panic.
+Theorem handle_no_secrets_np ks : handle_no_secrets L ks <> Panic.
 Proof.
   unfold handle_no_secrets. destruct ks as [k|]; [|discriminate].
   destruct (has_secrets k); [discriminate|]. apply handle_from_proto_np.
 Qed.
 
-Theorem read_no_secrets_np b : read_no_secrets ec_point_ok ec_pub_of_priv b <> Panic.
+Theorem read_no_secrets_np b : read_no_secrets L b <> Panic.
 Proof. unfold read_no_secrets. destruct (decode_keyset b); [|discriminate]. apply handle_no_secrets_np. Qed.
 
-Theorem read_encrypted_np kek b ad : read_encrypted ec_point_ok ec_pub_of_priv kek b ad <> Panic.
+Theorem read_encrypted_np kek b ad : read_encrypted L kek b ad <> Panic.
 Proof.
   unfold read_encrypted. destruct (decode_encrypted b); [|discriminate].
   destruct (kek _ ad); [|discriminate]. destruct (decode_keyset _); [|discriminate]. apply handle_from_proto_np.
@@ -381,11 +693,10 @@ End KeysProofs.
 (* accepted keysets give well-formed handles                           *)
 (* ------------------------------------------------------------------ *)
 Section HandleProofs.
-Variable ec_point_ok : N -> bytes -> bool.
-Variable ec_pub_of_priv : N -> bytes -> option bytes.
-Notation to_entry := (to_entry ec_point_ok ec_pub_of_priv).
-Notation to_entries := (to_entries ec_point_ok ec_pub_of_priv).
-Notation handle_from_proto := (handle_from_proto ec_point_ok ec_pub_of_priv).
+Variable L : stdlib.
+Notation to_entry := (to_entry L).
+Notation to_entries := (to_entries L).
+Notation handle_from_proto := (handle_from_proto L).
 
 (* entry e is what keysetToEntries makes of key k *)
 Definition entry_of (primary : N) (k : option pkey) (e : entry) : Prop :=
@@ -484,7 +795,7 @@ Proof.
     rewrite R, D, A. reflexivity.
 Qed.
 
-Theorem read_wf b h : read ec_point_ok ec_pub_of_priv b = Ok h ->
+Theorem read_wf b h : read L b = Ok h ->
   exists ks, decode_keyset b = Some ks /\ wf_keyset ks /\ wf_handle h
     /\ Forall2 (entry_of (ks_primary ks)) (ks_keys ks) h.
 Proof.
@@ -506,9 +817,8 @@ End HandleProofs.
 (* a usable key is at least as strong as the property demands          *)
 (* ------------------------------------------------------------------ *)
 Section StrengthProofs.
-Variable ec_point_ok : N -> bytes -> bool.
-Variable ec_pub_of_priv : N -> bytes -> option bytes.
-Notation usable := (usable ec_point_ok ec_pub_of_priv).
+Variable L : stdlib.
+Notation usable := (usable L).
 
 (* select the parser of the key's type URL: every comparison of two constant
    URLs is evaluated *)
@@ -661,6 +971,159 @@ Proof.
   unfold vfields, aes_size_ok. unfold aes_16_32, aes_k16, aes_k32 in P. lia.
 Qed.
 
+Lemma strength_rsa_priv pss kd prefix idreq d :
+  parse_rsa_priv L pss kd prefix idreq = Ok d -> prim_ok L d = Ok true -> rsa_strong (get_sub 2 (vfields kd)).
+Proof.
+  unfold parse_rsa_priv, vfields.
+  repeat match goal with |- (if ?c then Err else _) = Ok _ -> _ => destruct c eqn:?; [discriminate|] end.
+  destruct (rsa_crt L _ _ _ _ _) as [[[dp dq] qinv]|]; [|discriminate].
+  repeat match goal with |- (if ?c then Err else _) = Ok _ -> _ => destruct c eqn:?; [discriminate|] end.
+  intros H. apply okb_ok in H. destruct H as [_ ->]. cbn [prim_ok]. intros P. inversion P as [P'].
+  repeat rewrite andb_true_iff in P'. destruct P' as [[P1 P2] _].
+  match goal with H : negb (_ && _ && _ && _ && _ && rsa_exponent_parse_ok _ && _ && _) = false |- _ =>
+    apply negb_false_iff in H; repeat rewrite andb_true_iff in H; destruct H as [[[_ C] _] _] end.
+  unfold rsa_exponent_prim in P2. apply N.eqb_eq in P2. apply (rsa_exponent_exact _ _ C) in P2.
+  unfold rsa_min_bits_prim in P1. split; [lia|exact P2].
+Qed.
+
+Lemma strength_rsa_pkcs1_priv kd prefix idreq : usable kd prefix idreq = true ->
+  is_url kd url_rsa_pkcs1_priv -> rsa_strong (get_sub 2 (vfields kd)).
+Proof.
+  intros H U. change (kd_url kd = u_rsa_pkcs1_priv) in U.
+  unfold Untrusted.usable, Untrusted.parse_key, parse_key_more, url_is in H; rewrite U in H;
+  repeat match type of H with context [beq ?a ?b] =>
+     let v := eval vm_compute in (beq a b) in change (beq a b) with v in H end;
+  cbv iota in H.
+  destruct (parse_rsa_priv L false kd prefix idreq) as [d| |] eqn:P; try discriminate.
+  destruct (prim_ok L d) as [[|]| |] eqn:Q; try discriminate.
+  eapply strength_rsa_priv; eauto.
+Qed.
+
+Lemma strength_rsa_pss_priv kd prefix idreq : usable kd prefix idreq = true ->
+  is_url kd url_rsa_pss_priv -> rsa_strong (get_sub 2 (vfields kd)).
+Proof.
+  intros H U. change (kd_url kd = u_rsa_pss_priv) in U.
+  unfold Untrusted.usable, Untrusted.parse_key, parse_key_more, url_is in H; rewrite U in H;
+  repeat match type of H with context [beq ?a ?b] =>
+     let v := eval vm_compute in (beq a b) in change (beq a b) with v in H end;
+  cbv iota in H.
+  destruct (parse_rsa_priv L true kd prefix idreq) as [d| |] eqn:P; try discriminate.
+  destruct (prim_ok L d) as [[|]| |] eqn:Q; try discriminate.
+  eapply strength_rsa_priv; eauto.
+Qed.
+
+Ltac dispatch_more H U :=
+  unfold Untrusted.usable, Untrusted.parse_key, parse_key_more, url_is in H; rewrite U in H;
+  repeat match type of H with context [beq ?a ?b] =>
+     let v := eval vm_compute in (beq a b) in change (beq a b) with v in H end;
+  cbv iota in H.
+
+Lemma strength_jwt_rsa pss kd prefix idreq d :
+  parse_jwt_rsa_pub pss kd prefix idreq = Ok d -> prim_ok L d = Ok true -> rsa_strong (vfields kd).
+Proof.
+  unfold parse_jwt_rsa_pub, vfields.
+  repeat match goal with |- (if ?c then Err else _) = Ok _ -> _ => destruct c; [discriminate|] end.
+  intros H. apply okb_ok in H. destruct H as [C ->]. cbn [prim_ok]. intros P. inversion P as [P'].
+  repeat rewrite andb_true_iff in P'. destruct P' as [P1 P2].
+  repeat rewrite andb_true_iff in C. destruct C as [[_ C] _].
+  unfold rsa_exponent_prim in P2. apply N.eqb_eq in P2. apply (rsa_exponent_exact _ _ C) in P2.
+  unfold rsa_min_bits_prim in P1. split; [lia|exact P2].
+Qed.
+
+Lemma strength_jwt_rsa_pkcs1 kd prefix idreq : usable kd prefix idreq = true ->
+  is_url kd url_jwt_rsa_pkcs1_pub -> rsa_strong (vfields kd).
+Proof.
+  intros H U. change (kd_url kd = u_jwt_rsa_pkcs1_pub) in U. dispatch_more H U.
+  destruct (parse_jwt_rsa_pub false kd prefix idreq) as [d| |] eqn:P; try discriminate.
+  destruct (prim_ok L d) as [[|]| |] eqn:Q; try discriminate. eapply strength_jwt_rsa; eauto.
+Qed.
+
+Lemma strength_jwt_rsa_pss kd prefix idreq : usable kd prefix idreq = true ->
+  is_url kd url_jwt_rsa_pss_pub -> rsa_strong (vfields kd).
+Proof.
+  intros H U. change (kd_url kd = u_jwt_rsa_pss_pub) in U. dispatch_more H U.
+  destruct (parse_jwt_rsa_pub true kd prefix idreq) as [d| |] eqn:P; try discriminate.
+  destruct (prim_ok L d) as [[|]| |] eqn:Q; try discriminate. eapply strength_jwt_rsa; eauto.
+Qed.
+
+Lemma strength_jwt_rsa_priv pss kd prefix idreq d :
+  parse_jwt_rsa_priv L pss kd prefix idreq = Ok d -> prim_ok L d = Ok true -> rsa_strong (get_sub 2 (vfields kd)).
+Proof.
+  unfold parse_jwt_rsa_priv, vfields.
+  repeat match goal with |- (if ?c then Err else _) = Ok _ -> _ => destruct c eqn:?; [discriminate|] end.
+  destruct (rsa_crt L _ _ _ _ _) as [[[dp dq] qinv]|] eqn:V; [|discriminate].
+  intros H. apply okb_ok in H. destruct H as [_ ->]. cbn [prim_ok]. rewrite V. intros P. inversion P as [P'].
+  cbn [andb] in P'. repeat rewrite andb_true_iff in P'. destruct P' as [[P1 P2] _].
+  match goal with H : negb (_ && _ && _ && _ && rsa_exponent_parse_ok _ && _) = false |- _ =>
+    apply negb_false_iff in H; repeat rewrite andb_true_iff in H; destruct H as [[_ C] _] end.
+  unfold rsa_exponent_prim in P2. apply N.eqb_eq in P2. apply (rsa_exponent_exact _ _ C) in P2.
+  unfold rsa_min_bits_prim in P1. split; [lia|exact P2].
+Qed.
+
+Lemma strength_jwt_rsa_pkcs1_priv kd prefix idreq : usable kd prefix idreq = true ->
+  is_url kd url_jwt_rsa_pkcs1_priv -> rsa_strong (get_sub 2 (vfields kd)).
+Proof.
+  intros H U. change (kd_url kd = u_jwt_rsa_pkcs1_priv) in U. dispatch_more H U.
+  destruct (parse_jwt_rsa_priv L false kd prefix idreq) as [d| |] eqn:P; try discriminate.
+  destruct (prim_ok L d) as [[|]| |] eqn:Q; try discriminate. eapply strength_jwt_rsa_priv; eauto.
+Qed.
+
+Lemma strength_jwt_rsa_pss_priv kd prefix idreq : usable kd prefix idreq = true ->
+  is_url kd url_jwt_rsa_pss_priv -> rsa_strong (get_sub 2 (vfields kd)).
+Proof.
+  intros H U. change (kd_url kd = u_jwt_rsa_pss_priv) in U. dispatch_more H U.
+  destruct (parse_jwt_rsa_priv L true kd prefix idreq) as [d| |] eqn:P; try discriminate.
+  destruct (prim_ok L d) as [[|]| |] eqn:Q; try discriminate. eapply strength_jwt_rsa_priv; eauto.
+Qed.
+
+Lemma strength_jwt_hmac kd prefix idreq : usable kd prefix idreq = true ->
+  is_url kd url_jwt_hmac -> 16 <= blen (get_len 3 (vfields kd)).
+Proof.
+  intros H U. change (kd_url kd = u_jwt_hmac) in U. dispatch_more H U.
+  unfold parse_jwt_hmac in H.
+  repeat match type of H with context [if ?c then Err else _] => destruct c; [discriminate|] end.
+  match type of H with context [okb ?c ?d] => destruct c eqn:C end; cbn [okb] in H; [|discriminate].
+  cbn [prim_ok] in H.
+  match type of H with
+  | context [Ok ?b] => destruct b eqn:P
+  | context [if ?b then _ else _] => destruct b eqn:P
+  end; [|discriminate].
+  apply hmac_params_strong in P. unfold vfields. tauto.
+Qed.
+
+Lemma strength_stream_gcm_hkdf kd prefix idreq : usable kd prefix idreq = true ->
+  is_url kd url_stream_gcm_hkdf -> aes_size_ok (get_u32 2 (get_sub 2 (vfields kd))).
+Proof.
+  intros H U. change (kd_url kd = u_stream_gcm_hkdf) in U. dispatch_more H U.
+  unfold parse_stream_gcm_hkdf in H.
+  repeat match type of H with context [if ?c then Err else _] => destruct c; [discriminate|] end.
+  match type of H with context [okb ?c ?d] => destruct c eqn:C end; cbn [okb] in H; [|discriminate].
+  cbn [prim_ok] in H.
+  match type of H with
+  | context [Ok ?b] => destruct b eqn:P
+  | context [if ?b then _ else _] => destruct b eqn:P
+  end; [|discriminate].
+  repeat rewrite andb_true_iff in P. destruct P as [[_ P] _].
+  unfold vfields, aes_size_ok. unfold aes_16_32, aes_k16, aes_k32 in P. lia.
+Qed.
+
+Lemma strength_stream_ctr_hmac kd prefix idreq : usable kd prefix idreq = true ->
+  is_url kd url_stream_ctr_hmac ->
+  aes_size_ok (get_u32 2 (get_sub 2 (vfields kd))) /\ 10 <= get_u32 2 (get_sub 4 (get_sub 2 (vfields kd))).
+Proof.
+  intros H U. change (kd_url kd = u_stream_ctr_hmac) in U. dispatch_more H U.
+  unfold parse_stream_ctr_hmac in H.
+  repeat match type of H with context [if ?c then Err else _] => destruct c; [discriminate|] end.
+  match type of H with context [okb ?c ?d] => destruct c eqn:C end; cbn [okb] in H; [|discriminate].
+  cbn [prim_ok] in H.
+  match type of H with
+  | context [Ok ?b] => destruct b eqn:P
+  | context [if ?b then _ else _] => destruct b eqn:P
+  end; [|discriminate].
+  repeat rewrite andb_true_iff in P. destruct P as [[[[_ P1] P2] _] _].
+  unfold vfields, aes_size_ok. unfold aes_16_32, aes_k16, aes_k32 in P1. unfold stream_min_tag in P2. lia.
+Qed.
+
 Theorem usable_strength kd prefix idreq :
   usable kd prefix idreq = true -> strength_ok kd.
 Proof.
@@ -677,7 +1140,16 @@ Proof.
   split; [intros U; eapply strength_rsa_pss; eauto|].
   split; [intros U; eapply strength_ecdsa_pub; eauto|].
   split; [intros U; eapply strength_ecdsa_priv; eauto|].
-  intros U; eapply strength_xaes_gcm; eauto.
+  split; [intros U; eapply strength_xaes_gcm; eauto|].
+  split; [intros U; eapply strength_rsa_pkcs1_priv; eauto|].
+  split; [intros U; eapply strength_rsa_pss_priv; eauto|].
+  split; [intros U; eapply strength_jwt_rsa_pkcs1; eauto|].
+  split; [intros U; eapply strength_jwt_rsa_pss; eauto|].
+  split; [intros U; eapply strength_jwt_rsa_pkcs1_priv; eauto|].
+  split; [intros U; eapply strength_jwt_rsa_pss_priv; eauto|].
+  split; [intros U; eapply strength_jwt_hmac; eauto|].
+  split; [intros U; eapply strength_stream_gcm_hkdf; eauto|].
+  intros U; eapply strength_stream_ctr_hmac; eauto.
 Qed.
 
 (* Regression (defect fixed in /repo, commit 067e856): an RSA public key whose
@@ -688,7 +1160,7 @@ Definition rsa_trunc_value : bytes :=
 Definition rsa_trunc_kd : keydata := mkKD u_rsa_pkcs1_pub rsa_trunc_value km_public.
 
 Theorem rsa_exponent_truncation_rejected :
-  ~ strength_ok rsa_trunc_kd /\ parse_key ec_point_ok ec_pub_of_priv rsa_trunc_kd pt_tink 7 = Err.
+  ~ strength_ok rsa_trunc_kd /\ parse_key L rsa_trunc_kd pt_tink 7 = Err.
 Proof.
   split; [|vm_compute; reflexivity].
   intros S. destruct S as [_ [_ [_ [_ [_ [_ [_ [_ [S _]]]]]]]]].
@@ -735,34 +1207,33 @@ Proof.
 Qed.
 
 Section EntryPoints.
-Variable ec_point_ok : N -> bytes -> bool.
-Variable ec_pub_of_priv : N -> bytes -> option bytes.
+Variable L : stdlib.
 
 Definition accepted_as (ks : keyset) (h : handle) : Prop :=
   wf_keyset ks /\ wf_handle h /\ Forall2 (entry_of (ks_primary ks)) (ks_keys ks) h.
 
-Theorem read_proto_wf ks h : read_proto ec_point_ok ec_pub_of_priv ks = Ok h ->
+Theorem read_proto_wf ks h : read_proto L ks = Ok h ->
   exists k, ks = Some k /\ accepted_as k h.
 Proof.
   unfold read_proto. destruct ks as [k|]; [|discriminate]. destruct (ks_keys k); [discriminate|].
   intros H. apply handle_from_proto_wf in H. destruct H as [k' [E H]]. inversion E; subst. exists k'. split; auto.
 Qed.
 
-Theorem handle_no_secrets_wf ks h : handle_no_secrets ec_point_ok ec_pub_of_priv ks = Ok h ->
+Theorem handle_no_secrets_wf ks h : handle_no_secrets L ks = Ok h ->
   exists k, ks = Some k /\ has_secrets k = false /\ accepted_as k h.
 Proof.
   unfold handle_no_secrets. destruct ks as [k|]; [|discriminate]. destruct (has_secrets k) eqn:S; [discriminate|].
   intros H. apply handle_from_proto_wf in H. destruct H as [k' [E H]]. inversion E; subst. exists k'. auto.
 Qed.
 
-Theorem read_no_secrets_wf b h : read_no_secrets ec_point_ok ec_pub_of_priv b = Ok h ->
+Theorem read_no_secrets_wf b h : read_no_secrets L b = Ok h ->
   exists k, decode_keyset b = Some k /\ has_secrets k = false /\ accepted_as k h.
 Proof.
   unfold read_no_secrets. destruct (decode_keyset b) as [k|]; [|discriminate]. intros H.
   apply handle_no_secrets_wf in H. destruct H as [k' [E H]]. inversion E; subst. exists k'. auto.
 Qed.
 
-Theorem read_encrypted_wf kek b ad h : read_encrypted ec_point_ok ec_pub_of_priv kek b ad = Ok h ->
+Theorem read_encrypted_wf kek b ad h : read_encrypted L kek b ad = Ok h ->
   exists ct pt k, decode_encrypted b = Some ct /\ kek ct ad = Some pt /\ decode_keyset pt = Some k /\ accepted_as k h.
 Proof.
   unfold read_encrypted. destruct (decode_encrypted b) as [ct|]; [|discriminate].
@@ -772,17 +1243,17 @@ Proof.
 Qed.
 
 Theorem malformed_rejected_everywhere ks : ~ wf_keyset ks ->
-  read_proto ec_point_ok ec_pub_of_priv (Some ks) = Err
-  /\ handle_no_secrets ec_point_ok ec_pub_of_priv (Some ks) = Err
+  read_proto L (Some ks) = Err
+  /\ handle_no_secrets L (Some ks) = Err
   /\ (forall b, decode_keyset b = Some ks ->
-        read ec_point_ok ec_pub_of_priv b = Err /\ read_no_secrets ec_point_ok ec_pub_of_priv b = Err)
+        read L b = Err /\ read_no_secrets L b = Err)
   /\ (forall kek b ad ct pt, decode_encrypted b = Some ct -> kek ct ad = Some pt -> decode_keyset pt = Some ks ->
-        read_encrypted ec_point_ok ec_pub_of_priv kek b ad = Err).
+        read_encrypted L kek b ad = Err).
 Proof.
-  intros H. pose proof (malformed_rejected ec_point_ok ec_pub_of_priv ks H) as M.
-  assert (A : read_proto ec_point_ok ec_pub_of_priv (Some ks) = Err).
+  intros H. pose proof (malformed_rejected L ks H) as M.
+  assert (A : read_proto L (Some ks) = Err).
   { unfold read_proto. destruct (ks_keys ks); [reflexivity|exact M]. }
-  assert (B : handle_no_secrets ec_point_ok ec_pub_of_priv (Some ks) = Err).
+  assert (B : handle_no_secrets L (Some ks) = Err).
   { unfold handle_no_secrets. destruct (has_secrets ks); [reflexivity|exact M]. }
   split; [exact A|]. split; [exact B|]. split.
   - intros b D. unfold read, read_no_secrets. rewrite D. split; [|exact B].
@@ -792,11 +1263,11 @@ Qed.
 
 (* undecodable input and failed decryption are errors *)
 Theorem undecodable_rejected b : decode_keyset b = None ->
-  read ec_point_ok ec_pub_of_priv b = Err /\ read_no_secrets ec_point_ok ec_pub_of_priv b = Err.
+  read L b = Err /\ read_no_secrets L b = Err.
 Proof. intros D. unfold read, read_no_secrets. rewrite D. auto. Qed.
 
 Theorem wrong_kek_rejected kek b ad ct : decode_encrypted b = Some ct -> kek ct ad = None ->
-  read_encrypted ec_point_ok ec_pub_of_priv kek b ad = Err.
+  read_encrypted L kek b ad = Err.
 Proof. intros D1 D2. unfold read_encrypted. rewrite D1, D2. reflexivity. Qed.
 
 End EntryPoints.
@@ -805,12 +1276,11 @@ End EntryPoints.
 (* exact acceptance: which byte strings yield a handle                 *)
 (* ------------------------------------------------------------------ *)
 Section Acceptance.
-Variable ec_point_ok : N -> bytes -> bool.
-Variable ec_pub_of_priv : N -> bytes -> option bytes.
-Notation parse_key := (parse_key ec_point_ok ec_pub_of_priv).
-Notation to_entry := (to_entry ec_point_ok ec_pub_of_priv).
-Notation to_entries := (to_entries ec_point_ok ec_pub_of_priv).
-Notation handle_from_proto := (handle_from_proto ec_point_ok ec_pub_of_priv).
+Variable L : stdlib.
+Notation parse_key := (parse_key L).
+Notation to_entry := (to_entry L).
+Notation to_entries := (to_entries L).
+Notation handle_from_proto := (handle_from_proto L).
 
 (* the key's own parser (or the fallback) accepts it, with id requirement 0 for RAW *)
 Definition key_parses (k : option pkey) : Prop :=
@@ -849,18 +1319,18 @@ Theorem handle_from_proto_ok_iff ks :
   (exists h, handle_from_proto (Some ks) = Ok h) <-> (wf_keyset ks /\ Forall key_parses (ks_keys ks)).
 Proof.
   split.
-  - intros [h H]. pose proof (handle_from_proto_wf _ _ _ _ H) as [k [E [W _]]]. inversion E; subst k.
+  - intros [h H]. pose proof (handle_from_proto_wf _ _ _ H) as [k [E [W _]]]. inversion E; subst k.
     split; [exact W|]. unfold Untrusted.handle_from_proto in H. destruct (validate (Some ks)); [|discriminate].
     apply bind_ok in H. destruct H as [es [Hes _]]. destruct W as [_ [K _]].
     apply (to_entries_ok_iff (ks_primary ks) _ K). eauto.
   - intros [W P]. pose proof W as [Hne [K [Hnd [pk [P1 [P2 P3]]]]]].
     unfold Untrusted.handle_from_proto. rewrite (validate_complete ks W).
     apply (to_entries_ok_iff (ks_primary ks) _ K) in P. destruct P as [es Hes]. rewrite Hes. cbn [bind].
-    pose proof (to_entries_shape _ _ _ _ _ Hes) as F.
+    pose proof (to_entries_shape _ _ _ _ Hes) as F.
     unfold new_from_entries.
     assert (S : existsb (fun e => negb (known_status (estatus e))) es = false).
     { destruct (existsb _ es) eqn:X; [|reflexivity]. exfalso. apply existsb_exists in X. destruct X as [e [Hin He]].
-      destruct (forall2_in ec_point_ok ec_pub_of_priv _ _ _ _ F Hin) as [k' [Hk' [pk' [-> [_ [B _]]]]]].
+      destruct (forall2_in _ _ _ _ F Hin) as [k' [Hk' [pk' [-> [_ [B _]]]]]].
       rewrite Forall_forall in K. destruct (K _ Hk') as [pk'' [kd [E [_ [_ S]]]]]. inversion E; subst.
       apply known_status_spec in S. rewrite B, S in He. discriminate. }
     rewrite S.
@@ -870,7 +1340,7 @@ Proof.
 Qed.
 
 Theorem read_ok_iff b :
-  (exists h, read ec_point_ok ec_pub_of_priv b = Ok h) <->
+  (exists h, read L b = Ok h) <->
   (exists ks, decode_keyset b = Some ks /\ wf_keyset ks /\ Forall key_parses (ks_keys ks)).
 Proof.
   unfold read. split.
